@@ -253,7 +253,7 @@ func (r *runner) scenario(ctx context.Context, rnd *hx.Rand, kind syncrig.Kind) 
 		pre := x.w.Stored()
 		err := x.w.Sync(ctx, head)
 		if r.cfg.Prop == "C15" {
-			line, impl := synLine(x.w, idm, pre, x.w.Stored(), head.Number())
+			line, impl := synLine(x.w, idm, pre, x.w.Stored(), head.Number(), err)
 			r.items = append(r.items, item{line, impl})
 			r.res.Distinct(line)
 		}
@@ -394,7 +394,41 @@ func (r *runner) scenario(ctx context.Context, rnd *hx.Rand, kind syncrig.Kind) 
 				}
 				continue
 			}
+			faulty := false
+			if rnd.Chance(35) {
+				// a fault inside the step that sees the fork: in the reset transaction, or in the resync after it
+				head := newAt(oldPos + 1)
+				rpc, dbEvents, cerr := x.w.CountCalls(ctx, head)
+				if cerr == nil && rpc+dbEvents > 0 {
+					if rnd.Chance(40) && rpc > 0 {
+						kk := 1 + rnd.Intn(rpc)
+						x.w.FailRPC(kk)
+						hist = append(hist, fmt.Sprintf("fail-rpc %d", kk))
+						r.res.Count(kind.String() + ":fault-in-fork-step:rpc")
+					} else if dbEvents > 0 {
+						kk := 1 + rnd.Intn(dbEvents)
+						mode := []pgfake.Action{pgfake.Fail, pgfake.DropBefore, pgfake.DropAfter}[rnd.Intn(3)]
+						x.w.FailDB(kk, mode)
+						hist = append(hist, fmt.Sprintf("fail-db %d mode=%d", kk, mode))
+						r.res.Count(kind.String() + ":fault-in-fork-step:db")
+					}
+					faulty = true
+				}
+			}
+			beforeForkStep := x.w.Stored()
 			step(newAt(oldPos+1), salt, " (new fork, one past the position)")
+			if faulty && !r.stop {
+				if st := x.w.Stored(); st.HasPosition && len(st.SyncedHash) == 0 &&
+					(st.SyncedNumber != beforeForkStep.SyncedNumber || len(beforeForkStep.SyncedHash) != 0) {
+					// the reset was stored and the resync failed: whatever comes next (often another fork, seen
+					// at the reset position + 1) starts from a position without a hash
+					r.res.Count(kind.String() + ":reset-stored-resync-failed")
+					continue
+				}
+				// the same head again: a later head would be two past the position, which is the open finding
+				// (a reorg is only seen at position + 1) in another guise
+				step(newAt(oldPos+1), salt, " (again)")
+			}
 			if !r.stop && rnd.Chance(60) {
 				step(tip, tipSalt, "")
 			}
@@ -650,7 +684,7 @@ func (x *ids) posText(st syncrig.Stored) string {
 }
 
 // synLine renders pre-state, the canonical chain up to the head and how far the call got.
-func synLine(w *syncrig.World, x *ids, pre, post syncrig.Stored, head uint64) (line, impl string) {
+func synLine(w *syncrig.World, x *ids, pre, post syncrig.Stored, head uint64, callErr error) (line, impl string) {
 	blocks := []string{}
 	for n := uint64(0); n <= head; n++ {
 		b := w.Chain.CanonicalByNumber(n)
@@ -676,6 +710,9 @@ func synLine(w *syncrig.World, x *ids, pre, post syncrig.Stored, head uint64) (l
 	// the call stored something iff the position now carries a real hash that it did not carry before at that number
 	if post.HasPosition && len(post.SyncedHash) > 0 && (!pre.HasPosition || post.SyncedNumber != pre.SyncedNumber || string(post.SyncedHash) != string(pre.SyncedHash)) {
 		upTo = fmt.Sprintf("%d", post.SyncedNumber)
+	}
+	if callErr != nil && upTo == "-" && x.posText(pre) == x.posText(post) && x.rowsText(w.Kind, pre.Events) == x.rowsText(w.Kind, post.Events) {
+		upTo = "x" // the call failed and left everything as it was: it did not get past the reset transaction
 	}
 	line = fmt.Sprintf("SYN %d %d %s %s %s %d %s", w.AssumedReorgDepth(), w.FirstBlock(), x.posText(pre), x.rowsText(w.Kind, pre.Events), strings.Join(blocks, ";"), head, upTo)
 	impl = fmt.Sprintf("pos=%s rows=%s", x.posText(post), x.rowsText(w.Kind, post.Events))
